@@ -2,7 +2,7 @@
    [txt n] is the token list of the text the provider returns for the reference n.  The reference graph
    reachable from a token list is required to have finite depth d ([good d]: no cycle); the meaning of a
    reference is the meaning of its provider's text, recursively. *)
-From Verif Require Import Common.Base C12.Model C12.Proofs1 C12.Proofs2 C12.Proofs3.
+From Verif Require Import Common.Base C12.Model C12.Proofs1 C12.Proofs2 C12.Proofs3 C12.Proofs4 C12.Proofs8.
 From Coq Require Import Ascii.
 
 Section Nested.
@@ -219,48 +219,124 @@ Section Nested.
       unfold mean, sem; destruct d; reflexivity.
   Qed.
 
+  (* ---- anchoring, nested: the token list can never shrink to ONE bare reference ------------------------ *)
+  (* a token whose final meaning is not empty *)
+  Definition nheavy (d : nat) (t : tok) : bool :=
+    match t with TRef _ => negb (str_empty (tmean d t)) | _ => true end.
+  Definition nweight (d : nat) (ts : list tok) : nat := length (filter (nheavy d) ts).
+  Definition nanchored (d : nat) (ts : list tok) : Prop := has_text ts = true \/ 2 <= nweight d ts.
+
+  Lemma nweight_app d a b : nweight d (a ++ b) = nweight d a + nweight d b.
+  Proof. unfold nweight. now rewrite filter_app, app_length. Qed.
+
+  Lemma tmean_nonref d t : is_ref t = false -> tmean d t = tsem0 t.
+  Proof. destruct t; try discriminate; destruct d; reflexivity. Qed.
+
+  Lemma nheavy_mono d t : tgood d t -> nheavy (S d) t = nheavy d t.
+  Proof. intros H. destruct t; try reflexivity. unfold nheavy. now destruct (mono d _ H) as [-> _]. Qed.
+
+  (* a non-empty concatenation has a non-empty member *)
+  Lemma mean_nonempty_weight d l : mean d l <> [] -> 1 <= nweight d l.
+  Proof.
+    unfold mean, nweight. induction l as [|t l IH]; intros H; [now contradiction H|].
+    cbn [map concat filter] in *. destruct (nheavy d t) eqn:E; [cbn [length]; lia|].
+    destruct t; try discriminate. unfold nheavy in E. apply negb_false_iff in E.
+    destruct (tmean d (TRef name)); [|discriminate]. now apply IH.
+  Qed.
+
+  Lemma nweight_nsubst n d ts : good d ts -> nweight d ts <= nweight d (nsubst n ts).
+  Proof.
+    induction ts as [|t ts IH]; intros Hg; [apply le_n|].
+    inversion Hg as [|? ? Ht Hts]; subst.
+    unfold nsubst in *. cbn [flat_map]. rewrite nweight_app.
+    change (t :: ts) with ([t] ++ ts). rewrite (nweight_app d [t] ts).
+    apply Nat.add_le_mono; [|now apply IH].
+    destruct t; try apply le_n. cbn [nsubst1]. destruct (str_eqb name n) eqn:E; [|apply le_n].
+    apply str_eqb_eq in E. subst name.
+    destruct (good_ref d n Ht) as [d' [-> [_ [_ Hg']]]].
+    unfold nweight at 1. cbn [filter]. destruct (nheavy (S d') (TRef n)) eqn:Eh; [|apply Nat.le_0_l].
+    cbn [length]. unfold nheavy in Eh. apply negb_true_iff in Eh.
+    assert (Hne : mean d' (txt n) <> []).
+    { change (tmean (S d') (TRef n)) with (mean d' (txt n)) in Eh. intros E0. rewrite E0 in Eh. discriminate. }
+    pose proof (mean_nonempty_weight d' _ Hne) as Hw.
+    assert (Hmono : nweight (S d') (txt n) = nweight d' (txt n)).
+    { unfold nweight. f_equal. clear -Hg'. induction Hg' as [|x l Hx Hl IHl]; [reflexivity|].
+      cbn [filter]. now rewrite (nheavy_mono d' x Hx), IHl. }
+    lia.
+  Qed.
+
+  Lemma nanchored_nsubst n d ts : good d ts -> nanchored d ts -> nanchored d (nsubst n ts).
+  Proof.
+    intros Hg [H|H]; [left; now apply has_text_nsubst|right].
+    pose proof (nweight_nsubst n d ts Hg). lia.
+  Qed.
+
+  Lemma nheavy_heavy d t : nheavy d t = true -> heavy nval t = true.
+  Proof.
+    destruct t; try reflexivity. unfold nheavy, heavy, nval. intros H. apply negb_true_iff in H.
+    apply negb_true_iff. destruct (txt name) as [|t0 l] eqn:E.
+    - destruct d; cbn [tmean] in H; [discriminate|]. rewrite E in H. discriminate.
+    - pose proof (tok_text_len t0). rewrite flatten_cons. destruct (tok_text t0); [cbn in *; lia|reflexivity].
+  Qed.
+
+  Lemma nanchored_anchored d ts : nanchored d ts -> anchored nval ts.
+  Proof.
+    intros [H|H]; [now left|right]. unfold nweight in H. unfold weight.
+    assert (Hle : length (filter (nheavy d) ts) <= length (filter (heavy nval) ts)).
+    { clear H. induction ts as [|t ts IH]; [apply le_n|]. cbn [filter].
+      destruct (nheavy d t) eqn:E.
+      - rewrite (nheavy_heavy d t E). cbn [length]. lia.
+      - destruct (heavy nval t); cbn [length]; lia. }
+    lia.
+  Qed.
+
   (* ---- rounds ------------------------------------------------------------------------------------------ *)
-  Lemma nested_round ts n :
-    wf def retrieve nval ts -> has_text ts = true -> first_ref ts = Some n ->
+  Lemma nested_round ts n d :
+    wf def retrieve nval ts -> nanchored d ts -> first_ref ts = Some n ->
     expand_string def retrieve (flatten ts) = Ok (CStr (flatten (nsubst n ts)), true).
   Proof.
-    intros Hwf Ht Hf. rewrite <- flatten_nsubst. apply one_round; [exact Hwf|now left|exact Hf].
+    intros Hwf Ht Hf. rewrite <- flatten_nsubst. apply one_round; [exact Hwf|now apply (nanchored_anchored d)|exact Hf].
   Qed.
 
   Lemma nested_rounds k : forall d ts,
-    cost d ts <= k -> wf def retrieve nval ts -> good d ts -> has_text ts = true ->
-    exists s, expand_rec def retrieve (S k) (CStr (flatten ts)) = Ok (CStr s) /\ unescape s = mean d ts.
+    cost d ts <= k -> wf def retrieve nval ts -> good d ts -> nanchored d ts ->
+    exists s, str_rec def retrieve (S k) (flatten ts) = Some s /\ unescape s = mean d ts.
   Proof.
     induction k as [|k IH]; intros d ts Hk Hwf Hg Ht; destruct (first_ref ts) as [n|] eqn:Hf.
     - pose proof (cost_nsubst_lt n d ts Hg Hf). lia.
     - exists (flatten ts). split.
-      + apply expand_rec_unchanged. rewrite expand_value_str. now apply (last_round def retrieve nval).
+      + cbn [str_rec]. now rewrite (last_round def retrieve nval).
       + rewrite (unescape_tokens def retrieve nval ts false Hwf Hf). symmetry. now apply mean_no_ref.
     - destruct (IH d (nsubst n ts)) as [s [Hs Hm]].
       + pose proof (cost_nsubst_lt n d ts Hg Hf). lia.
       + now apply (wf_nsubst n d).
       + now apply good_nsubst.
-      + now apply has_text_nsubst.
+      + now apply nanchored_nsubst.
       + exists s. split; [|now rewrite Hm, mean_nsubst].
-        rewrite (expand_rec_changed def retrieve _ _ (CStr (flatten (nsubst n ts)))); [exact Hs|].
-        rewrite expand_value_str. now apply nested_round.
+        change (str_rec def retrieve (S (S k)) (flatten ts)) with
+          (match expand_string def retrieve (flatten ts) with
+           | Ok (CStr o1, true) => str_rec def retrieve (S k) o1 | Ok (CStr o1, false) => Some o1 | _ => None end).
+        now rewrite (nested_round ts n d Hwf Ht Hf).
     - exists (flatten ts). split.
-      + apply expand_rec_unchanged. rewrite expand_value_str. now apply (last_round def retrieve nval).
+      + cbn [str_rec]. now rewrite (last_round def retrieve nval).
       + rewrite (unescape_tokens def retrieve nval ts false Hwf Hf). symmetry. now apply mean_no_ref.
   Qed.
 
   Lemma nested_main d ts :
-    wf def retrieve nval ts -> good d ts -> has_text ts = true -> cost d ts < 1000 ->
+    wf def retrieve nval ts -> good d ts -> nanchored d ts -> cost d ts < 1000 ->
     resolve_string def retrieve (flatten ts) = Ok (CStr (mean d ts)).
   Proof.
     intros Hwf Hg Ht Hc. unfold resolve_string, resolve_leaf. rewrite max_rounds_S.
     destruct (nested_rounds 999 d ts) as [s [Hs Hm]]; auto; [lia|].
-    rewrite Hs. cbn [escape_dollars]. now rewrite Hm.
+    rewrite (str_rec_er def retrieve _ _ _ Hs). cbn [escape_dollars]. now rewrite Hm.
   Qed.
 
   (* the number of rounds really is bounded by the measure: with fuel S (cost d ts) the recursion ends *)
   Lemma nested_rounds_within_cost d ts :
-    wf def retrieve nval ts -> good d ts -> has_text ts = true ->
+    wf def retrieve nval ts -> good d ts -> nanchored d ts ->
     exists s, expand_rec def retrieve (S (cost d ts)) (CStr (flatten ts)) = Ok (CStr s) /\ unescape s = mean d ts.
-  Proof. intros. now apply nested_rounds. Qed.
+  Proof.
+    intros Hwf Hg Ht. destruct (nested_rounds (cost d ts) d ts) as [s [Hs Hm]]; auto.
+    exists s. split; [now apply str_rec_er|exact Hm].
+  Qed.
 End Nested.
